@@ -144,7 +144,9 @@ def random_recipe(rng, space=None):
     dh = rng.choice([0, 0, 0, 1, 2, 3][: 3 + sp["max_dwt"]])
     if d + dh == 0 and not sp["depth0"]:
         d = 1
-    if dh == 0:
+    if dh == 0 and rng.random() >= 0.12:
+        # (otherwise: no horizontal-only level but another horizontal-only wavelet index -- legal, signalled through
+        # asym_transform_index_flag alone, needs a custom matrix since no default exists for such a pair)
         wih = wi
     r["wi"], r["wih"], r["d"], r["dh"] = wi, wih, d, dh
     sx = rng.randrange(1, sp["max_slices"][0] + 1)
